@@ -143,6 +143,34 @@ def check(spec):
         if not _eq(got, exp_cls):
             raise Violation(f"helper-differs:{name}", f"{_short(got)} vs {_short(exp_cls)}")
         evals += 1
+    # copies of the stack (copy.copy / deepcopy / a pickle round trip - what spawn-started workers receive) address the same samples
+    import copy
+    import pickle
+    for how in ("copy", "deepcopy", "pickle"):
+        try:
+            if how == "pickle":
+                try:
+                    blob = pickle.dumps(ds)
+                except (pickle.PicklingError, AttributeError, TypeError):
+                    labels.append("not-picklable")  # harness layers built from local classes
+                    continue
+                clone = pickle.loads(blob)
+            else:
+                clone = getattr(copy, how)(ds)
+            if len(clone) != n:
+                raise Violation(f"clone-differs:{how}:len", f"{len(clone)} vs {n}")
+            for item in ITEMS:
+                for k in ([0, n - 1, -1] if n else []):
+                    got = getattr(clone, f"getitem_{item}")(k)
+                    if not _eq(got, S.ref_item(ref, item, k)):
+                        raise Violation(f"clone-differs:{how}", f"getitem_{item}({k}) of the clone = {got!r}, composed map says {S.ref_item(ref, item, k)!r}")
+        except Violation:
+            raise
+        except AssertionError:
+            labels.append("clone-refused-by-assert")
+        except Exception as e:
+            raise Violation(f"clone-raises:{how}:{type(e).__name__}", f"{e!r}"[:300])
+        evals += 1
     # dispose reaches every root and every layer that owns a resource, also through concats with several parts
     objs = S.all_objects(ref)
     roots = [o for o in objs if isinstance(o, S.TokenRoot)]
@@ -188,7 +216,7 @@ def check(spec):
         if not top_is_concat and layers:
             if ds.getdim_class() != root.C:
                 raise Violation("introspection:getdim", str(ds.getdim_class()))
-            for nm, exp_dim in (("target", 7 + root.root_id), ("embedding", 3)):
+            for nm, exp_dim in (("target", 7 + root.root_id), ("embedding", 3), ("coarse_class", 5 + root.root_id)):
                 try:
                     got_dim = getattr(ds, f"getdim_{nm}")()
                 except Exception as e:
